@@ -170,6 +170,7 @@ static void check13(const Bytes &doc, bool arr, unsigned depth, Src &s, const st
     for (size_t c : caps) {
         ToStr r = to_string_cap(pb.p, c, false);
         st.count("calls");
+        if (!st.quiet) st.evaluations++;  // one evaluation per (document, capacity) pair
         if (c < need) {
             if (r.ret) VH_FAIL("C13/small/ret=true", "capacity %zu < need %zu returned true; %s", c, need, what.c_str());
             if (r.size != need) VH_FAIL("C13/small/size", "capacity %zu: *size=%zu expected %zu; %s", c, r.size, need, what.c_str());
